@@ -953,6 +953,18 @@ Lemma ex_roundtrip :
                   pars h' 3 = [5; 4] /\ node_name (getn h' 3) = Some "3".
 Proof. do 3 eexists. repeat split; vm_compute; reflexivity. Qed.
 
+Definition ex_ind : individual :=
+  mkInd (FMulti Tuple Tuple [Qmake (-1) 1; Qmake 1 1] [Qmake (-3) 2; Qmake 2 1]) ex_graph
+        [("note", JStr "x")] (Some 2%Z)
+        (Some (mkPO "crossover" Tuple [JStr "one_point"] Tuple [PLive "p1"; PLive "p2"] "op-uid")) "ind-uid".
+
+Lemma ex_individual_roundtrip :
+  exists j h' l, fst (save_individual ex_heap ex_ind) = Ok j /\ load_individual ex_heap j = Ok (h', l) /\
+                 fst (save_individual h' l) = Ok j /\
+                 cmp_raises (i_fitness l) (i_fitness ex_ind) = false /\ hash_raises (i_fitness l) = false /\
+                 option_map po_parents (i_pop l) = Some [PUid "p1"; PUid "p2"].
+Proof. do 3 eexists. repeat split; vm_compute; reflexivity. Qed.
+
 (* ================================================================= the oracle accepts what the theorems describe *)
 (* holds_graph (Serial/GraphCodec.v) is what the harness evaluates on the OBSERVED behaviour.
    Here: an observation that coincides with the model's behaviour on a well-formed graph (and
